@@ -95,12 +95,20 @@ func (cc *LBClient) Do(req *Request, resp *Response) error {
 }
 
 func (cc *LBClient) init() {
-	cc.mu.Lock()
-	defer cc.mu.Unlock()
 	if len(cc.Clients) == 0 {
 		// developer sanity-check
 		panic("BUG: LBClient.Clients cannot be empty")
 	}
+	cc.initClients()
+}
+
+// initClients copies Clients into the balanced list. AddClient and
+// RemoveClients run it too, so that a membership change made before the first
+// request acts on the configured clients instead of on an empty list that
+// the first request would then overwrite.
+func (cc *LBClient) initClients() {
+	cc.mu.Lock()
+	defer cc.mu.Unlock()
 	for _, c := range cc.Clients {
 		cc.cs = append(cc.cs, &lbClient{
 			c:           c,
@@ -112,6 +120,7 @@ func (cc *LBClient) init() {
 // AddClient adds a new client to the balanced clients and
 // returns the new total number of clients.
 func (cc *LBClient) AddClient(c BalancingClient) int {
+	cc.once.Do(cc.initClients)
 	cc.mu.Lock()
 	defer cc.mu.Unlock()
 	cc.cs = append(cc.cs, &lbClient{
@@ -125,6 +134,7 @@ func (cc *LBClient) AddClient(c BalancingClient) int {
 // If rc returns true, the passed client will be removed.
 // Returns the new total number of clients.
 func (cc *LBClient) RemoveClients(rc func(BalancingClient) bool) int {
+	cc.once.Do(cc.initClients)
 	cc.mu.Lock()
 	// defer so a panic in the user-supplied rc can't leak the lock.
 	defer cc.mu.Unlock()
